@@ -58,6 +58,8 @@ fn parse_scopeblock(ast: &ast::Statement, context: &mut Context) -> TyperResult<
 
 /// Process a single statement
 fn parse_statement(ast: &ast::Statement, context: &mut Context) -> TyperResult<Vec<ir::Statement>> {
+    #[cfg(feature = "verif-hooks")]
+    rssl_text::verif::tick(16);
     // Parse all attributes - ignoring if it makes sense for the statement kind
     let attributes = parse_statement_attributes(&ast.attributes, context)?;
 
